@@ -1011,12 +1011,9 @@ func TestVerifCfg(t *testing.T) {
 			return ns[0], rg, f
 		}
 		a, ra, _ := mk()
+		again = r.Intn(4) == 0 // the same block again, in whatever notation comes out
 		b, rb, _ := mk()
-		if r.Intn(4) == 0 { // the same block again, in whatever notation comes out
-			again = true
-			b, rb, _ = mk()
-			again = false
-		}
+		again = false
 		got := cidrsOverlap(a, b)
 		want := ra.meets(rb)
 		out.Stat("overlap_checks", 1)
